@@ -367,7 +367,7 @@ def rule_parallel_lists(repo, col):
 # ---------------------------------------------------------------------------
 def rule_every_vector_written(repo, col):
     rule = 'SB-EVERYVECTOR'
-    for q in ('Table.to_json', 'Table.delimited_self', 'Table.to_hdf5'):
+    for q in ('Table.to_json', 'Table.delimited_self'):
         fn = repo.func(TABLE, q)
         k = 0
         for loop in [n for n in body_walk(fn) if isinstance(n, ast.For)]:
